@@ -201,6 +201,10 @@ func (dl *datalog) writeRecord(data []byte, rt recordType) (uint16, uint32, erro
 	if dl.curSeg.meta.Full || dl.curSeg.size+int64(len(data)) > int64(dl.opts.maxSegmentSize) {
 		// Current segment is full, create a new one.
 		dl.curSeg.meta.Full = true
+		// Make the segment durable before moving on: Sync only covers the current segment.
+		if err := dl.sync(); err != nil {
+			return 0, 0, err
+		}
 		if err := dl.swapSegment(); err != nil {
 			return 0, 0, err
 		}
